@@ -20,6 +20,14 @@
   very long or deeply nested text; `PythonBlock` records all of these as
   "not parsable", so in auto mode the original string is delivered).
 
+  On a tree with `fixes/C15-H4.diff` (`block.compile()` before `auto_eval`)
+  the harness also puts into `Env.compileRaises` the texts that the grammar
+  accepts as an expression but on which `compile()` to code raises (`*1`,
+  `(yield)`, `lambda x, x: 1`): they are delivered as the original string too.
+  On the tree as it stands they reach `auto_eval` (`Env.outcome`).
+  `Env.eqValue` selects `if not value` (false, as coded) / `if not equalsign`
+  (true, `fixes/C15-H2.diff`) in the option loop, see `takesNext`.
+
   `Env.exactFirst = false` is the code as it stands; `true` is the code with
   `fixes/C15-D16.diff` (an exact parameter name wins over the names it is a
   prefix of).
@@ -82,6 +90,10 @@ structure Env where
   outcome : Str → Outcome
   exactFirst : Bool
   compileRaises : Str → Bool := fun _ => false
+  /-- `false`: the code as it stands (`if not value:` — an option written `--name=` with nothing after the `=`
+      takes the NEXT argument as its value, like `--name`); `true`: the code with `fixes/C15-H2.diff`
+      (`if not equalsign:` — `--name=` binds the empty string). -/
+  eqValue : Bool := false
 
 /-- A `UserExpr`: a user string with its argument mode (`"string"` is
     `raw_value`), or the `raw_value` expression of a parameter default. -/
@@ -202,6 +214,11 @@ def optName (env : Env) (spec : ArgSpec) (n : Str) (hasEq : Bool) : Except PErr 
     | .err e => .error e
     | .bound m => .ok m
 
+/-- line 779: does the option take the next argument as its value?  As the code stands: whenever the text after
+    the `=` is empty (also when an `=` was typed); with `fixes/C15-H2.diff`: exactly when no `=` was typed. -/
+def takesNext (env : Env) (hasEq : Bool) (v : Str) : Bool :=
+  if env.eqValue then !hasEq else v.isEmpty
+
 abbrev Scanned := List Expr × List (Str × Expr)
 
 def addPos (e : Expr) : Except PErr Scanned → Except PErr Scanned
@@ -232,7 +249,7 @@ def scan (env : Env) (spec : ArgSpec) (mode : Mode) :
       match optName env spec n eq with
       | .error e => .error e
       | .ok m =>
-        if v.isEmpty then scan env spec mode rest stdin (some m)
+        if takesNext env eq v then scan env spec mode rest stdin (some m)
         else addKw m (.user v mode) (scan env spec mode rest stdin none)
     | .pos => addPos (.user arg mode) (scan env spec mode rest stdin none)
 
@@ -532,7 +549,8 @@ def FromArgv (argv : List Str) (stdin : Str) (s : Str) : Prop :=
   s ∈ argv ∨ (∃ a ∈ argv, ∃ pre, a = pre ++ '=' :: s ∧ '=' ∉ pre) ∨ s = stdin ∨ s = []
 
 /-- two environments that differ at most in the evaluator (`parsable`, `outcome`) -/
-def SameSyntax (e1 e2 : Env) : Prop := e1.isIdent = e2.isIdent ∧ e1.exactFirst = e2.exactFirst
+def SameSyntax (e1 e2 : Env) : Prop :=
+  e1.isIdent = e2.isIdent ∧ e1.exactFirst = e2.exactFirst ∧ e1.eqValue = e2.eqValue
 
 def dd : Str := ['-','-']
 
